@@ -7,6 +7,7 @@ import (
 	"math/big"
 	"os"
 	"path/filepath"
+	"sort"
 	"strings"
 	"time"
 
@@ -34,6 +35,7 @@ type CrashPlan struct {
 	Torn    bool // WAL image = synced prefix + part of the unsynced/next record (torn tail)
 	VotesFirst bool // the victim is sent a round's block parts only after it has seen +2/3 prevotes (so that its
 	// prevote and precommit are queued together)
+	Rotate  int64 // WAL head size limit: the WAL rotates (checked after every stimulus); 0 = no rotation
 	Second  bool // a second crash during recovery / the following heights: SecondQ durable units after the restart
 	SecondQ int
 	Late    bool // crash at the LAST instant with durable prefix p: just before unit p+1 is written (everything the
@@ -99,7 +101,7 @@ func CrashCase(c *core.Case, plan CrashPlan, p int) {
 	defer os.RemoveAll(root)
 	net, err := NewNet(NetOpts{N: plan.N, Powers: powers, Root: root, Node: func(i int) NodeOpts {
 		if i == plan.Victim {
-			return NodeOpts{RecordDB: true, FileWAL: true, Cache: cacheFor(plan.Flush)}
+			return NodeOpts{RecordDB: true, FileWAL: true, Cache: cacheFor(plan.Flush), WALHeadLimit: plan.Rotate}
 		}
 		return NodeOpts{Cache: cacheFor(plan.Flush)}
 	}})
@@ -130,6 +132,9 @@ func CrashCase(c *core.Case, plan CrashPlan, p int) {
 		haltAt = p + 1
 	}
 	net.AfterStimulus = func(n *Node) {
+		if n == victim && plan.Rotate > 0 {
+			victim.CheckWALRotation()
+		}
 		if n == victim && victim.Dur.Len() >= haltAt {
 			net.Halt = true
 		}
@@ -228,6 +233,10 @@ func CrashCase(c *core.Case, plan CrashPlan, p int) {
 		walSize = int64(len(walData))
 	}
 	img := walData[:walSize]
+	var imgFiles map[string][]byte
+	if plan.Rotate > 0 {
+		imgFiles, img = rotatedImage(evs, p, filepath.Dir(victim.WAL.path))
+	}
 	if plan.Torn {
 		// part of what was written after the last fsync (up to the next fsync), cut in the middle of a record
 		next := int64(len(walData))
@@ -242,7 +251,7 @@ func CrashCase(c *core.Case, plan CrashPlan, p int) {
 		}
 	}
 	victim.Stop(false)
-	curDB, curImg := db, img
+	curDB, curImg, curFiles := db, img, imgFiles
 	var nn *Node
 	var res SyncResult
 	signsJudged := 0
@@ -287,7 +296,7 @@ func CrashCase(c *core.Case, plan CrashPlan, p int) {
 	for stage := 1; ; stage++ {
 		db0 := CopyDB(curDB)
 		dir := filepath.Join(root, fmt.Sprintf("restarted%d", stage))
-		if err := WriteWALImage(dir, curImg); err != nil {
+		if err := writeWALFiles(dir, curImg, curFiles); err != nil {
 			run.Inconclusive("cannot write wal image: " + err.Error())
 			return
 		}
@@ -300,7 +309,7 @@ func CrashCase(c *core.Case, plan CrashPlan, p int) {
 			}()
 			tr := &Trace{}
 			tr.add(Ev{Kind: EvRestart})
-			n2, err := BuildNode(plan.Victim, net.Gen, net.Keys[plan.Victim], curDB, tr, nil, NodeOpts{FileWAL: true, Dir: dir, Cache: cacheFor(plan.Flush), RecordDB: record})
+			n2, err := BuildNode(plan.Victim, net.Gen, net.Keys[plan.Victim], curDB, tr, nil, NodeOpts{FileWAL: true, Dir: dir, Cache: cacheFor(plan.Flush), RecordDB: record, WALHeadLimit: plan.Rotate})
 			if err != nil {
 				return "build: " + err.Error()
 			}
@@ -362,6 +371,9 @@ func CrashCase(c *core.Case, plan CrashPlan, p int) {
 				}
 			}
 			net.Halt = nn.Dur.Len() >= q2
+			if plan.WithTxs {
+				injectTxs(net, 99) // the restarted node's pool holds transactions again (lost once more at the second crash)
+			}
 			if !net.Halt {
 				res = net.RunSync(target, 200, nil)
 			}
@@ -412,6 +424,10 @@ func CrashCase(c *core.Case, plan CrashPlan, p int) {
 					size2 = int64(len(walData2))
 				}
 				curImg = walData2[:size2]
+				curFiles = nil
+				if plan.Rotate > 0 {
+					curFiles, curImg = rotatedImage(evs2, q2, filepath.Dir(nn.WAL.path))
+				}
 				curDB = db0
 				for _, d := range evs2[:q2] {
 					if d.Kind == "db" {
@@ -519,7 +535,7 @@ func GoldenLen(plan CrashPlan) (total int, start int, err error) {
 	}
 	net, err := NewNet(NetOpts{N: plan.N, Powers: powers, Node: func(i int) NodeOpts {
 		if i == plan.Victim {
-			return NodeOpts{RecordDB: true, FileWAL: true, Cache: cacheFor(plan.Flush)}
+			return NodeOpts{RecordDB: true, FileWAL: true, Cache: cacheFor(plan.Flush), WALHeadLimit: plan.Rotate}
 		}
 		return NodeOpts{Cache: cacheFor(plan.Flush)}
 	}})
@@ -533,6 +549,14 @@ func GoldenLen(plan CrashPlan) (total int, start int, err error) {
 	start = net.Nodes[plan.Victim].Dur.Len()
 	if plan.VotesFirst {
 		votesFirstFilter(net, plan.Victim)
+	}
+	if plan.Rotate > 0 {
+		gv := net.Nodes[plan.Victim]
+		net.AfterStimulus = func(n *Node) {
+			if n == gv {
+				gv.CheckWALRotation()
+			}
+		}
 	}
 	txRound := 0
 	for net.MinHeight() < plan.Heights {
@@ -603,4 +627,84 @@ func walHasOwn(img []byte, k signKey) bool {
 			}
 		}
 	}
+}
+
+
+// rotatedImage builds the WAL image of a rotating group at crash point p: every file with the size it had at the
+// last fsync (or rotation) at or before p. The head file of that moment may have been rotated since: it is then
+// found under the rotated name with the next index. Returns the files and their concatenation in reading order.
+func rotatedImage(evs []DurEv, p int, dir string) (map[string][]byte, []byte) {
+	var files map[string]int64
+	var headSize int64 = -1
+	for _, e := range evs[:p] {
+		if e.Kind == "walsync" {
+			files, headSize = e.WalFiles, e.WalSize
+		}
+	}
+	out := map[string][]byte{}
+	if files == nil {
+		// single file so far
+		b, _ := os.ReadFile(filepath.Join(dir, "wal"))
+		if _, err := os.Stat(filepath.Join(dir, "wal.000")); err == nil {
+			b, _ = os.ReadFile(filepath.Join(dir, "wal.000"))
+		}
+		if headSize < 0 {
+			headSize = 0
+		}
+		if headSize > int64(len(b)) {
+			headSize = int64(len(b))
+		}
+		out["wal"] = b[:headSize]
+		return out, out["wal"]
+	}
+	rotated := 0
+	for name := range files {
+		if name != "wal" {
+			rotated++
+		}
+	}
+	var names []string
+	for name := range files {
+		names = append(names, name)
+	}
+	sort.Strings(names) // "wal" < "wal.000" < ...: put the head last
+	var concat []byte
+	for _, name := range names {
+		if name == "wal" {
+			continue
+		}
+		b, _ := os.ReadFile(filepath.Join(dir, name))
+		if sz := files[name]; sz < int64(len(b)) {
+			b = b[:sz]
+		}
+		out[name] = b
+		concat = append(concat, b...)
+	}
+	// the head of that moment
+	src := filepath.Join(dir, fmt.Sprintf("wal.%03d", rotated))
+	b, err := os.ReadFile(src)
+	if err != nil {
+		b, _ = os.ReadFile(filepath.Join(dir, "wal"))
+	}
+	if sz := files["wal"]; sz < int64(len(b)) {
+		b = b[:sz]
+	}
+	out["wal"] = b
+	concat = append(concat, b...)
+	return out, concat
+}
+
+func writeWALFiles(dir string, img []byte, files map[string][]byte) error {
+	if files == nil {
+		return WriteWALImage(dir, img)
+	}
+	if err := os.MkdirAll(filepath.Join(dir, "cs.wal"), 0700); err != nil {
+		return err
+	}
+	for name, b := range files {
+		if err := os.WriteFile(filepath.Join(dir, "cs.wal", name), b, 0600); err != nil {
+			return err
+		}
+	}
+	return nil
 }
